@@ -64,7 +64,7 @@ func (r *Run) lockHeldAt(fn *ssa.Function, tm *Termer, mutexTerm string, at ssa.
 
 // C16 — the parallel executor is race-free.
 func C16(p *Prog, r *Run) {
-	r.Explanation = "Race freedom under every schedule is decided by lockset and ownership rules that do not depend on the schedule. S = the repository functions reachable (VTA call graph) from the closure that ParallelPopulationEpochExecutor.reproduce starts with `go`. (1) guarded-by: every load and store of Population.innovations in S executes with Population.mutex held on every path (must-hold path search; deferred Unlock counts at return); the elements are immutable: no store to a field of Innovation outside its constructors and no indexed store into the list, so a snapshot taken under the lock may be scanned without it. (2) the counters nextInnovNum/nextNodeId are touched in S only as the address argument of sync/atomic calls. (3) no other shared writes: a transitive writes-through analysis (which parameter's reachable memory does a function store to, propagated through every call site with the origin of the argument) leaves at the goroutine root exactly {Population.innovations, Organism.superChampOffspring}; every other store in S lands in memory allocated by the goroutine itself; superChampOffspring is accessed only as recv.Organisms[0] of the goroutine's own species. (4) hand-over: the struct sent on the channel holds no pointer to repository types, wg.Add precedes go, Done is deferred first, wg.Wait dominates close and the receive loop, and the closure captures no variable. Assumption: offspring producers (duplicate, mate*) return deep-fresh genomes for non-modular parents (C06.3, C04). Not decided: the check-then-act window between Innovations() and StoreInnovation (allowed by the statement); the sequential guarantees on the shared code are the obligations of C01-C03."
+	r.Explanation = "Race freedom under every schedule is decided by lockset and ownership rules that do not depend on the schedule. S = the repository functions reachable (VTA call graph) from the closure that ParallelPopulationEpochExecutor.reproduce starts with `go`. (1) guarded-by: every load and store of Population.innovations in S executes with Population.mutex held on every path (must-hold path search; deferred Unlock counts at return); the elements are immutable: no store to a field of Innovation outside its constructors and no indexed store into the list, so a snapshot taken under the lock may be scanned without it. (2) the counters nextInnovNum/nextNodeId are touched in S only as the address argument of sync/atomic calls, and (C16.8) every number handed out is the result of one indivisible read-modify-write: an atomic add, or a load confirmed by a successful compare-and-swap from that value to a larger one; no separate store/swap overwrites a counter (alternatively every access sits in one critical section of the population's mutex). (3) no other shared writes: a transitive writes-through analysis (which parameter's reachable memory does a function store to, propagated through every call site with the origin of the argument; stores, copy, in-place sorts, clear/delete, append onto a slice whose array the function did not allocate unless its capacity is clipped, and writes of closures through what they captured) leaves at the goroutine root exactly {Population.innovations and the locked append onto it, Organism.superChampOffspring}; every other store in S lands in memory allocated by the goroutine itself; superChampOffspring is accessed only as recv.Organisms[0] of the goroutine's own species. (4) hand-over: the struct sent on the channel holds no pointer to repository types, wg.Add precedes go, Done is deferred first, wg.Wait dominates close and the receive loop, and the closure captures no variable; every goroutine is counted exactly once by wg.Add, the result channel buffers one result per goroutine, close precedes a receive loop that ends on close. (5, C16.9) the spawner is a concurrent party too: between a go statement and wg.Wait it (and what it calls) stores nothing into memory reachable from its arguments or globals and touches the innovation list / counters only under the same discipline. Assumption: offspring producers (duplicate, mate*) return deep-fresh genomes for non-modular parents (C06.3, C04). Not decided: the check-then-act window between Innovations() and StoreInnovation (allowed by the statement); the sequential guarantees on the shared code are the obligations of C01-C03."
 	par := p.Func(PkgG, "ParallelPopulationEpochExecutor.reproduce")
 	gos, roots := goroutineRoots(par)
 	if len(roots) != 1 {
@@ -117,6 +117,7 @@ func C16(p *Prog, r *Run) {
 			})
 		}
 		r.Floor("accesses to Population.innovations in the goroutine call tree", n, 3)
+		r.c16InnovationAppends(S, innovF)
 		// immutability of the records
 		ctors := map[string]bool{"NewInnovationForNode": true, "NewInnovationForLink": true, "NewInnovationForRecurrentLink": true}
 		okImm := true
@@ -167,6 +168,7 @@ func C16(p *Prog, r *Run) {
 		n := 0
 		for _, name := range []string{"nextInnovNum", "nextNodeId"} {
 			f := p.Field(PkgG, "Population", name)
+			locked := r.c16MutexRegime(counterAccesses(S, f)) // alternative discipline: everything under the population's mutex
 			for _, fn := range S {
 				Instrs(fn, func(_ *ssa.BasicBlock, _ int, in ssa.Instruction) {
 					fa, ok := in.(*ssa.FieldAddr)
@@ -187,7 +189,7 @@ func C16(p *Prog, r *Run) {
 								}
 							}
 						}
-						r.Check(okA, fn.Name()+"."+name, p.Pos(ref.Pos()), name+" is accessed through sync/atomic (Add of a positive constant)",
+						r.Check(okA || locked, fn.Name()+"."+name, p.Pos(ref.Pos()), name+" is accessed through sync/atomic (Add of a positive constant)",
 							name+" is accessed non-atomically (or not incremented by a positive constant) in "+FuncName(fn)+", which runs concurrently in every reproduction goroutine")
 					}
 				})
@@ -196,12 +198,22 @@ func C16(p *Prog, r *Run) {
 		r.Floor("counter accesses in the goroutine call tree", n, 2)
 	})
 
+	r.Rule("C16.8", "indivisible issue: every number handed out in the goroutines' call tree is the result of ONE atomic read-modify-write of the counter (atomic add of a positive constant, or a load confirmed by a successful compare-and-swap from that value to a larger one), and the counter is never overwritten by a separate store - or all accesses share one critical section of the population's mutex. Necessary: with load + store two goroutines that draw at the same moment both read n and both return n+1, so one innovation number (node id) denotes two different connections (nodes); a late store also moves the counter backwards", func() {
+		r.c16CounterIssue(S, re)
+	})
+
 	r.Rule("C16.3", "no other shared writes: through its parameters the goroutine writes only Population.innovations (locked) and superChampOffspring of its own species' champion", func() {
-		wt := NewWriteThrough(p, S)
+		wt := c16WriteThrough(p, S)
 		allowed := map[string]string{
-			"p|Population.innovations":        "append under the mutex (C16.1)",
-			"sp|Organism.superChampOffspring": "the champion of the goroutine's own species",
-			"wg|deref":                        "WaitGroup",
+			"p|Population.innovations":                 "append under the mutex (C16.1)",
+			"p|append-in-place:Population.innovations": "the append itself runs under the mutex and fills only slots beyond the length of every snapshot handed out (C16.1 innovations.append)",
+			"sp|Organism.superChampOffspring":          "the champion of the goroutine's own species",
+			"wg|deref":                                 "WaitGroup",
+		}
+		for _, name := range []string{"nextInnovNum", "nextNodeId"} {
+			if r.c16MutexRegime(counterAccesses(S, p.Field(PkgG, "Population", name))) {
+				allowed["p|Population."+name] = "every access runs under the population's mutex (C16.8)"
+			}
 		}
 		facts := wt.W[root]
 		for _, t := range facts {
@@ -218,7 +230,11 @@ func C16(p *Prog, r *Run) {
 			if why, ok := allowed[k]; ok {
 				r.OK("shared-write:"+k, p.Pos(t.Pos), "allowed: "+why+" (via "+strings.Join(t.Via, " -> ")+")")
 			} else {
-				r.Bad("shared-write:"+k, p.Pos(t.Pos), fmt.Sprintf("the reproduction goroutine writes %s of memory reachable from its argument %q (shared with the other goroutines) via %s", t.What, who, strings.Join(t.Via, " -> ")))
+				note := ""
+				if strings.HasPrefix(t.What, "append-") {
+					note = "; append(s, x) stores x into the array of s whenever s has spare capacity - always after s[:0] or s[:k] - and that array is the one every holder of the list reads"
+				}
+				r.Bad("shared-write:"+k, p.Pos(t.Pos), fmt.Sprintf("the reproduction goroutine writes %s of memory reachable from its argument %q (shared with the other goroutines) via %s%s", t.What, who, strings.Join(t.Via, " -> "), note))
 			}
 		}
 		r.Floor("write-through facts at the goroutine root", len(facts), 2)
@@ -273,6 +289,10 @@ func C16(p *Prog, r *Run) {
 
 	r.Rule("C16.7", "same population guarantees as the sequential executor: the epoch pipeline of both executors (every species reproduces once, the progeny count is compared with PopSize for equality on the very list that is speciated, purge and ageing) - obligations shared with C02.1", func() {
 		r.epochPipeline(true)
+	})
+
+	r.Rule("C16.9", "the spawner is one more concurrent party: from the first go statement until wg.Wait returns, ParallelPopulationEpochExecutor.reproduce (and whatever it calls there) stores nothing into memory reachable from its arguments or globals and touches the innovation list / the counters only under the mutex / atomically. Necessary: nothing orders these instructions against the goroutines already running, so such a store races with their reads of the species, organisms and population", func() {
+		r.c16SpawnerWindow(par, gos, innovF)
 	})
 
 	r.Rule("C16.4", "hand-over: results carry no pointer to repository types; wg.Add precedes go, Done is deferred, Wait dominates close and the receive loop; the closure captures nothing", func() {
@@ -355,6 +375,7 @@ func C16(p *Prog, r *Run) {
 			}
 			r.Check(addOK, "wg.add-before-go", p.Pos(g.Pos()), "wg.Add precedes the go statement", "wg.Add does not precede the go statement: Wait may return before the goroutine is counted")
 		}
+		r.c16HandOverCounts(par, gos)
 		// Done deferred in the closure before anything else
 		var firstDefer *ssa.Defer
 		if len(root.Blocks) > 0 {
